@@ -89,8 +89,8 @@ opcodes! {
     DepWrite = "dep_write", "C03 C15";
     DepAsMutSlice = "dep_as_mut_slice", "C03 C15";
     ThinMutGetMut = "thin_mut_get_mut", "C03 C10";
-    ThinMutReplace = "thin_mut_replace", "C10";
-    ThinMutNoop = "thin_mut_noop", "C10";
+    ThinMutReplace = "thin_mut_replace", "C10 C03";
+    ThinMutNoop = "thin_mut_noop", "C10 C03";
     UniWrite = "uni_write", "";
     DeInPlace = "de_in_place", "C03 C17";
     // ---- uninit
